@@ -6,6 +6,7 @@ pub mod c02;
 pub mod c03;
 pub mod c04;
 pub mod c05;
+pub mod c07;
 pub mod c08;
 pub mod c09;
 pub mod c10;
@@ -22,6 +23,7 @@ pub fn run(ctx: &mut Ctx) {
         "C03" => c03::run(ctx),
         "C04" => c04::run(ctx),
         "C05" => c05::run(ctx),
+        "C07" => c07::run(ctx),
         "C08" => c08::run(ctx),
         "C09" => c09::run(ctx),
         "C10" => c10::run(ctx),
@@ -40,6 +42,7 @@ pub fn replay(ctx: &mut Ctx, stage: &str, case: &Value) -> Result<(), String> {
         "C03" => c03::replay(ctx, stage, case),
         "C04" => c04::replay(ctx, stage, case),
         "C05" => c05::replay(ctx, stage, case),
+        "C07" => c07::replay(ctx, stage, case),
         "C08" => c08::replay(ctx, stage, case),
         "C09" => c09::replay(ctx, stage, case),
         "C10" => c10::replay(ctx, stage, case),
